@@ -13,7 +13,8 @@ pub struct Sched {
     /// 0 all at once, 1 one byte per call, 2 random chunks (incl. empty), 3 single cut at `cut`
     pub in_style: u8,
     pub cut: usize,
-    /// 0 unlimited, 1 grants 0..3, 2 random grants, 3 grants around 258/259
+    /// 0 unlimited, 1 grants 0..3, 2 random grants, 3 grants around 258/259,
+    /// 4 planned: first call `cut & 0xFFFFFFFF` bytes, second call `cut >> 32` bytes, then unlimited
     pub out_style: u8,
     /// announce more input even on the last chunk (stream ends in needs-more-input when truncated)
     pub more_on_last: bool,
@@ -75,7 +76,7 @@ pub fn run_low(r: &mut DecompressorOxide, z: &[u8], base_flags: u32, mode: &Mode
         let chunk = match sched.in_style { 0 => left, 1 => 1.min(left), 2 => if rng.chance(1, 6) { 0 } else { rng.range(1, 40).min(left) }, _ => if !cut_done { cut_done = true; sched.cut.saturating_sub(ipos).min(left) } else { left } };
         let last = ipos + chunk == z.len();
         let has_more = !last || sched.more_on_last;
-        let grant = match sched.out_style { 0 => usize::MAX, 1 => rng.below(4), 2 => *rng.pick(&[1usize, 2, 5, 17, 100, 257, 258, 259, 260, 1000, 40000]), _ => rng.range(255, 262) };
+        let grant = match sched.out_style { 0 => usize::MAX, 1 => rng.below(4), 2 => *rng.pick(&[1usize, 2, 5, 17, 100, 257, 258, 259, 260, 1000, 40000]), 4 => match res.ncalls { 1 => sched.cut & 0xFFFF_FFFF, 2 => sched.cut >> 32, _ => usize::MAX }, _ => rng.range(255, 262) };
         let flags = flags0 | if has_more { TINFL_FLAG_HAS_MORE_INPUT } else { 0 };
         let before: Option<Vec<u8>> = if buf.len() <= 4096 || res.ncalls <= 48 { Some(buf.clone()) } else { None };
         let input = &z[ipos..ipos + chunk];
